@@ -436,7 +436,7 @@ def _target_template(rnd, name, others, depth=0):
     """A template meant to be included / imported: macros, assignments (public and private),
     reads of outer variables, maybe a nested import."""
     body = [J.Text(f"[{name}:")]
-    vars_ = ["x", "i", "g", "loc", "w"]
+    vars_ = ["x", "i", "g", "loc", "w", "tg"]
     for _ in range(rnd.randint(1, 4)):
         r = rnd.random()
         if r < 0.3:
@@ -477,7 +477,7 @@ def _use_site(rnd, tnames):
     r = rnd.random()
     if r < 0.35:
         e = rnd.choice([C(t), C(t), J.List([C("nope"), C(t)]), N("tplname"), J.List([C("nope1"), C("nope2")]),
-                        C("nope")])
+                        C("nope"), J.Cond(N("c"), C(t), N("tplname")), J.Cond(N("c"), N("tplname"), C(t))])
         return [J.Include(e, with_context=rnd.random() < 0.6, ignore_missing=rnd.random() < 0.4)]
     if r < 0.7:
         alias = rnd.choice(["mod", "mod", "_m"])
@@ -542,7 +542,19 @@ def module_case(rnd, cid, auto=None):
         if rnd.random() < 0.7:
             d["x"] = rnd.choice([J.vint(7), J.vstr(META)])
         datas.append(d)
-    return J.make_case(cid, tpls, "main", datas, globals_={"g": J.vstr("G&")})
+    tg = {"tg": J.vstr("TG<")} if rnd.random() < 0.35 else None
+    if tg:
+        # a macro of an imported template reads the importer's template-level global
+        t0 = tnames[0]
+        b0 = list(tpls[t0]["body"]) + [J.Macro("mt", [], [], [J.Text("<mt:"), J.Out(N("tg")), J.Out(N("g")), J.Text(">")])]
+        tpls[t0] = J.template(b0, auto)
+        body = list(tpls["main"]["body"])
+        if rnd.random() < 0.5:
+            body += [J.Import(C(t0), "mtg", with_context=False), J.Out(J.Call(J.Getattr(N("mtg"), "mt")))]
+        else:
+            body += [J.FromImport(C(t0), [("mt", "mt")], with_context=False), J.Out(J.Call(N("mt")))]
+        tpls["main"] = J.template(body, auto)
+    return J.make_case(cid, tpls, "main", datas, globals_={"g": J.vstr("G&")}, tglobals=tg)
 
 
 def module_cases(seed, n, start_id=1, auto=None):
@@ -628,7 +640,8 @@ class ExprGen:
             return self.pick(C("lit<"), C(""), N("s1"), N("s2"), N("m1"), C("q"))
         if r < 0.5: return J.Concat(*[self.gany(d - 1) for _ in range(self.rnd.randint(2, 3))])
         if r < 0.6: return J.Bin("+", self.gstr(d - 1), self.gstr(d - 1))
-        if r < 0.7: return J.Filter(self.glist(d - 1), "join", [self.gstr(d - 1)] if self.rnd.random() < 0.7 else [])
+        if r < 0.7: return J.Filter(self.pick(N("l1"), N("l3"), self.glist(d - 1), self.glist(d - 1)), "join",
+                                    [self.pick(C("|"), C(", "), self.gstr(d - 1))] if self.rnd.random() < 0.7 else [])
         if r < 0.78: return J.Filter(self.gany(d - 1), "string")
         if r < 0.86: return J.Filter(self.gany(d - 1), self.pick("e", "safe"))
         if r < 0.92: return J.Filter(self.pick(N("u1"), N("s1"), self.gany(d - 1)), "default", [self.gstr(d - 1)] + ([C(True)] if self.rnd.random() < 0.4 else []))
@@ -861,6 +874,10 @@ def fault_variants(base, obs, start_id):
         variant(d0, objs=o)
         o = copy.deepcopy(FAULT_OBJS)
         o["o1"]["str"] = {"t": "raiser", "exc": "Private", "id": "str_o1"}
+        variant(d0, objs=o)
+        o = copy.deepcopy(FAULT_OBJS)
+        del o["o1"]["items"]["a"]                      # o1['a'] falls back to the attribute, which raises
+        o["o1"]["attrs"]["a"] = {"t": "raiser", "exc": "Private", "id": "attr_a_via_item"}
         variant(d0, objs=o)
         o = copy.deepcopy(FAULT_OBJS)
         o["o1"]["attrs"]["zz"] = {"t": "raiser", "exc": "AttributeError", "id": "zz"}
